@@ -8,7 +8,7 @@
     [step_self] = the per-action combination; [react_all] = one [react] per occurrence, in order;
     [step_abs] = the abstract per-argument fold; [enc k] = what a Count flag holds after k occurrences. *)
 From ClapModel Require Import Base.Bytes Base.Machine.
-From ClapModel Require Import Parse.Cmd Parse.Build Parse.Valid Parse.Matcher Parse.Errors Parse.Parser ParseProofs.Actions.
+From ClapModel Require Import Parse.Cmd Parse.Build Parse.Valid Parse.Matcher Parse.Errors Parse.Parser ParseProofs.Actions ParseProofs.ActionsLoop.
 From Coq Require Import ZArith.
 Open Scope N_scope.
 
@@ -190,3 +190,18 @@ Theorem C07_override_later_wins : forall c i os1 o os2 st st',
   groups_of i (mt st') = None.
 Proof. exact override_later_wins. Qed.
 Print Assumptions C07_override_later_wins.
+
+(** ---- a proved token class: separate short flags through the real token loop ---- *)
+Theorem C07_loop_flag_tokens : forall c toks os, flag_tokens c toks os -> forall pos vaf st,
+  fs_skip st = 0 ->
+  parse_loop c toks (mkL PSValuesDone pos vaf false) st = (do st' <- react_all c os st; ROk (LDone st')).
+Proof. exact parse_loop_flag_tokens. Qed.
+Print Assumptions C07_loop_flag_tokens.
+
+Theorem C07_loop_count_flag : forall c ch a n pos vaf st,
+  plain_short_flag c ch a -> count_flag a -> ~ In (a_id a) (groups_for_arg c (a_id a)) ->
+  wf_m (mt st) -> mt_pending (mt st) = None -> fs_skip st = 0 -> groups_of (a_id a) (mt st) = None ->
+  exists st', parse_loop c (repeat [45; ch] n) (mkL PSValuesDone pos vaf false) st = ROk (LDone st') /\
+    groups_of (a_id a) (mt st') = enc (N.of_nat n).
+Proof. exact parse_loop_count_flag. Qed.
+Print Assumptions C07_loop_count_flag.
